@@ -549,12 +549,15 @@ static void emitMK(Rng & rng) {
     size_t S = 1 + rng.below(6), A = 1 + rng.below(3), O = 1 + rng.below(3);
     auto v = P::makeValueFunction(S);
     P::Policy pol(S, A, O);
-    Line l; l << "C04" << "mk" << S << A << O << "|"; putVF(l, v); l << "|"; putVF(l, pol.getValueFunction()); l.emit();
+    // the documented rejection: a Policy cannot be built from an empty ValueFunction
+    std::string thrown = "none";
+    try { P::Policy bad(S, A, O, P::ValueFunction{}); } catch (const std::exception & e) { thrown = errClass(e); }
+    Line l; l << "C04" << "mk" << S << A << O << "|"; putVF(l, v); l << "|"; putVF(l, pol.getValueFunction()); l << "|" << thrown << (size_t)pol.getH() << (size_t)pol.getO(); l.emit();
 }
 
 // ---------------------------------------------------------------- case table
 static const long kFixed = 16;
-long verif::verif_ncases(const std::string & tier) { return kFixed + (tier == "thorough" ? 25000 : 900); }
+long verif::verif_ncases(const std::string & tier) { return kFixed + (tier == "thorough" ? 25000 : 1500); }
 
 void verif::verif_case(Rng & rng, long idx, const std::string & tier) {
     if (idx == 0) { runSolver(rng, 5, witnessQmdp(), 2); return; }           // known finding witness
